@@ -11,8 +11,8 @@
     * `htmlInline_link_level` (C01)     : `link_level` moves by at most one per call, and only on a
                                           match of at least three bytes (hence `|link_level| ≤ len / 3`
                                           along any run: the `i32` cannot overflow below 6 GiB of text);
-    * `htmlInline_overflow_iff`         : the ONLY panic under `InlineInv` is that overflow, and it
-                                          does fire at the ends of the `i32` range (witnesses);
+    * `htmlInline_only_overflow`        : the ONLY panic under `InlineInv` is that overflow, in real mode,
+                                          and it does fire at the ends of the `i32` range (witnesses);
     * `html_inline_silent_quiet`, `html_inline_silent_real`, `html_inline_real_silent` (C16);
     * `htmlInline_node` (C05)           : the pushed node carries the matched source text verbatim and
                                           the range `get_map(pos, pos + n)`, start ≤ end.
@@ -23,9 +23,9 @@
     * `htmlBlock_node` (C05)            : content = `get_lines(line, line', blk_indent, true)`, range =
                                           `get_map(line, line' - 1)` = (first_nonspace of the first line,
                                           line_end of the last), start ≤ end ≤ |src|;
-    * `htmlBlock_line_views` (C10)      : the rule reads the source only through the line table
-                                          (`get_line` / `line_indent` / `get_lines` / `get_map`): two states
-                                          with the same answers to those give the same result.
+    * `htmlBlock_line_views` (C10)      : verdict and consumed extent depend on the source only through
+                                          `line_indent` / `get_line` of the line table (no terminator is
+                                          ever looked at): two states that agree on those agree on both.
 -/
 import MdIt.Model.Html
 import MdIt.Lemmas.BlockTotalLeaf
@@ -364,5 +364,795 @@ theorem tagRest_quick {c : Char} {rest r : List Char} (h : tagRest (c :: rest) =
       split at h
       all_goals (first | (cases h; done) | skip)
       all_goals (rename_i heq; injection heq with h1 h2; subst h1 h2; exact ⟨rfl, by simp [quickSecond]⟩)
+
+/-! ## the inline rule -/
+
+/-- the shape of every successful run of `HtmlInlineScanner::run` -/
+theorem htmlInlineRule_ok {st : IState} {silent : Bool} {o : Option Nat} {st' : IState}
+    {nd : Option InlineNode} (h : htmlInlineRule st silent = .ok (o, st', nd)) :
+    ∃ c rest, st.window = .ok (c :: rest) ∧
+      ((o = none ∧ st' = st ∧ nd = none ∧
+          (c ≠ '<' ∨ quickSecond rest.head? = false ∨ tagRest (c :: rest) = none)) ∨
+       (∃ r, c = '<' ∧ quickSecond rest.head? = true ∧ tagRest (c :: rest) = some r ∧
+          o = some (byteLen (c :: rest) - byteLen r) ∧
+          ((silent = true ∧ st' = st ∧ nd = none) ∨
+           (silent = false ∧ ∃ ll rg,
+              linkLevelStep ((c :: rest).take ((c :: rest).length - r.length)) st.linkLevel = .ok ll ∧
+              st.getMap st.pos (st.pos + (byteLen (c :: rest) - byteLen r)) = .ok rg ∧
+              st' = { st with linkLevel := ll } ∧
+              nd = some ⟨(c :: rest).take ((c :: rest).length - r.length), rg⟩)))) := by
+  unfold htmlInlineRule at h
+  split at h
+  · cases h
+  · cases h
+  · rename_i c rest hw
+    refine ⟨c, rest, hw, ?_⟩
+    split at h
+    · rename_i hc
+      simp only [Except.ok.injEq, Prod.mk.injEq] at h
+      obtain ⟨rfl, rfl, rfl⟩ := h
+      exact .inl ⟨rfl, rfl, rfl, .inl hc⟩
+    · rename_i hc
+      have hc' : c = '<' := by simpa using hc
+      split at h
+      · rename_i hq
+        simp only [Except.ok.injEq, Prod.mk.injEq] at h
+        obtain ⟨rfl, rfl, rfl⟩ := h
+        exact .inl ⟨rfl, rfl, rfl, .inr (.inl (by simpa using hq))⟩
+      · rename_i hq
+        have hq' : quickSecond rest.head? = true := by simpa using hq
+        split at h
+        · rename_i hr
+          simp only [Except.ok.injEq, Prod.mk.injEq] at h
+          obtain ⟨rfl, rfl, rfl⟩ := h
+          exact .inl ⟨rfl, rfl, rfl, .inr (.inr hr)⟩
+        · rename_i r hr
+          refine .inr ⟨r, hc', hq', hr, ?_⟩
+          simp only at h
+          split at h
+          · rename_i hs
+            simp only [Except.ok.injEq, Prod.mk.injEq] at h
+            obtain ⟨rfl, rfl, rfl⟩ := h
+            exact ⟨rfl, .inl ⟨hs, rfl, rfl⟩⟩
+          · rename_i hs
+            split at h
+            · cases h
+            · rename_i ll hll
+              split at h
+              · cases h
+              · rename_i rg hrg
+                simp only [Except.ok.injEq, Prod.mk.injEq] at h
+                obtain ⟨rfl, rfl, rfl⟩ := h
+                exact ⟨rfl, .inr ⟨by simpa using hs, ll, rg, hll, hrg, rfl, rfl⟩⟩
+
+theorem linkLevelStep_total (content : List Char) {ll : Int} (h : i32Min < ll ∧ ll < i32Max) :
+    ∃ ll', linkLevelStep content ll = .ok ll' := by
+  unfold linkLevelStep
+  split
+  · rw [if_neg (by omega)]; exact ⟨_, rfl⟩
+  · split
+    · rw [if_neg (by omega)]; exact ⟨_, rfl⟩
+    · exact ⟨_, rfl⟩
+
+/-- `link_level` moves by at most one (never out of `i32`), and only for a text of at least three bytes -/
+theorem linkLevelStep_spec {content : List Char} {ll ll' : Int} (h : linkLevelStep content ll = .ok ll') :
+    ll' = ll ∨ ((ll' = ll + 1 ∧ ll' ≤ i32Max ∨ ll' = ll - 1 ∧ i32Min ≤ ll') ∧ 3 ≤ byteLen content) := by
+  unfold linkLevelStep at h
+  have pos := Char.utf8Size_pos
+  split at h
+  · rename_i ho
+    split at h
+    · cases h
+    · injection h with h; subst h
+      refine .inr ⟨.inl ⟨rfl, by omega⟩, ?_⟩
+      unfold linkOpen at ho
+      split at ho
+      · rename_i c t; simp only [byteLen]; have := pos '<'; have := pos 'a'; have := pos c; omega
+      · cases ho
+  · split at h
+    · rename_i hc
+      split at h
+      · cases h
+      · injection h with h; subst h
+        refine .inr ⟨.inr ⟨rfl, by omega⟩, ?_⟩
+        unfold linkClose at hc
+        split at hc
+        · simp only [byteLen]; have := pos '<'; have := pos 'a'; have := pos '/'; omega
+        · cases hc
+    · injection h with h; exact .inl h.symm
+
+/-- **C01, inline rule.**  Called as the tokenizer calls it (window non-empty, on character boundaries,
+    well-formed table) with `link_level` strictly inside the `i32` range, the rule does not panic,
+    and a match advances by at least one byte, stays inside the window and ends on a boundary. -/
+theorem inline_rule_progress_html {st : IState} (hi : InlineInv st) (silent : Bool)
+    (hll : i32Min < st.linkLevel ∧ st.linkLevel < i32Max) :
+    ∃ o st' nd, htmlInlineRule st silent = .ok (o, st', nd) ∧ Advances st o := by
+  obtain ⟨pre, w, post, hsrc, hpre, hlen, hw, hne⟩ := Inline.window_ok hi
+  have hsl := Inline.window_eq hw
+  cases w with
+  | nil => exact absurd rfl hne
+  | cons c rest =>
+    unfold htmlInlineRule
+    rw [hw]
+    simp only
+    split
+    · exact ⟨_, _, _, rfl, by intro len hl; simp at hl⟩
+    · split
+      · exact ⟨_, _, _, rfl, by intro len hl; simp at hl⟩
+      · cases hr : tagRest (c :: rest) with
+        | none => exact ⟨_, _, _, rfl, by intro len hl; simp at hl⟩
+        | some r =>
+          simp only
+          obtain ⟨m, hm⟩ := tagRest_spec hr
+          have hb : byteLen (c :: rest) = byteLen ('<' :: m) + byteLen r := by rw [hm, ← byteLen_append]
+          have h1 : byteLen ('<' :: m) = 1 + byteLen m := by simp [byteLen, byteLen_lt_one]
+          have hadv : Advances st (some (byteLen (c :: rest) - byteLen r)) := by
+            intro len hl
+            simp only [Option.some.injEq] at hl; subst hl
+            refine ⟨by omega, by omega, ?_⟩
+            have : byteLen (c :: rest) - byteLen r = byteLen ('<' :: m) := by omega
+            rw [this]
+            exact Inline.boundary_in_slice (by rw [← hm]; exact hsl)
+          split
+          · exact ⟨_, _, _, rfl, hadv⟩
+          · obtain ⟨ll', hl'⟩ := linkLevelStep_total
+              ((c :: rest).take ((c :: rest).length - r.length)) hll
+            rw [hl']
+            simp only
+            obtain ⟨x, y, hg, _, _⟩ := Inline.getMap_ok (st := st) hi.wf (a := st.pos)
+              (b := st.pos + (byteLen (c :: rest) - byteLen r)) (by omega)
+            rw [hg]
+            exact ⟨_, _, _, rfl, hadv⟩
+
+/-- **C01**: no panic (the statement without the extent) -/
+theorem htmlInline_no_panic {st : IState} (hi : InlineInv st) (silent : Bool)
+    (hll : i32Min < st.linkLevel ∧ st.linkLevel < i32Max) :
+    ∃ res, htmlInlineRule st silent = .ok res := by
+  obtain ⟨o, st', nd, h, _⟩ := inline_rule_progress_html hi silent hll
+  exact ⟨_, h⟩
+
+/-- under the invariant ALONE the only possible failure is the `i32` overflow of `link_level`, in real
+    mode, at an end of the `i32` range -/
+theorem htmlInline_only_overflow {st : IState} (hi : InlineInv st) (silent : Bool) {e : IPanic}
+    (h : htmlInlineRule st silent = .error e) :
+    e = .overflow ∧ silent = false ∧ (st.linkLevel ≤ i32Min ∨ i32Max ≤ st.linkLevel) := by
+  obtain ⟨pre, w, post, hsrc, hpre, hlen, hw, hne⟩ := Inline.window_ok hi
+  cases w with
+  | nil => exact absurd rfl hne
+  | cons c rest =>
+    unfold htmlInlineRule at h
+    rw [hw] at h
+    simp only at h
+    split at h
+    · cases h
+    · split at h
+      · cases h
+      · split at h
+        · cases h
+        · rename_i r hr
+          split at h
+          · cases h
+          · rename_i hs
+            have hsil : silent = false := by simpa using hs
+            split at h
+            · rename_i e' hl
+              injection h with h; subst h
+              unfold linkLevelStep at hl
+              split at hl
+              · split at hl
+                · injection hl with hl; exact ⟨hl.symm, hsil, .inr (by omega)⟩
+                · cases hl
+              · split at hl
+                · split at hl
+                  · injection hl with hl; exact ⟨hl.symm, hsil, .inl (by omega)⟩
+                  · cases hl
+                · cases hl
+            · obtain ⟨m, hm⟩ := tagRest_spec hr
+              have hb : byteLen (c :: rest) = byteLen ('<' :: m) + byteLen r := by
+                rw [hm, ← byteLen_append]
+              obtain ⟨x, y, hg, _, _⟩ := Inline.getMap_ok (st := st) hi.wf (a := st.pos)
+                (b := st.pos + (byteLen (c :: rest) - byteLen r)) (by omega)
+              rw [hg] at h
+              cases h
+
+/-- **C01, `link_level`.**  One call moves `link_level` by at most one, and only when it consumed at
+    least three bytes; the new value is inside `i32`.  Along a run of the tokenizer that starts at
+    `link_level = 0` (`InlineState::new`) the html rule therefore keeps `|link_level| ≤ len / 3`:
+    the hypothesis of `inline_rule_progress_html` holds for every text shorter than `3 · (2^31 - 1)`
+    bytes. -/
+theorem htmlInline_link_level {st st' : IState} {silent : Bool} {o : Option Nat} {nd : Option InlineNode}
+    (h : htmlInlineRule st silent = .ok (o, st', nd)) :
+    st'.linkLevel = st.linkLevel ∨
+      ((st'.linkLevel = st.linkLevel + 1 ∧ st'.linkLevel ≤ i32Max ∨
+        st'.linkLevel = st.linkLevel - 1 ∧ i32Min ≤ st'.linkLevel) ∧
+       silent = false ∧ ∃ n, o = some n ∧ 3 ≤ n) := by
+  obtain ⟨c, rest, hw, hcase⟩ := htmlInlineRule_ok h
+  rcases hcase with ⟨_, rfl, _, _⟩ | ⟨r, hc, hq, hr, ho, hmode⟩
+  · exact .inl rfl
+  · rcases hmode with ⟨_, rfl, _⟩ | ⟨hs, ll, rg, hl, hg, rfl, _⟩
+    · exact .inl rfl
+    · simp only
+      obtain ⟨m, hm⟩ := tagRest_spec hr
+      have hb : byteLen (c :: rest) = byteLen ('<' :: m) + byteLen r := by rw [hm, ← byteLen_append]
+      have htk : (c :: rest).take ((c :: rest).length - r.length) = '<' :: m := by
+        have : (c :: rest).length - r.length = ('<' :: m).length := by rw [hm]; simp; omega
+        rw [this, hm]; simp
+      rw [htk] at hl
+      rcases linkLevelStep_spec hl with hsame | ⟨hpm, h3⟩
+      · exact .inl hsame
+      · exact .inr ⟨hpm, hs, _, ho, by omega⟩
+
+/-- **C16, silent mode is quiet**: no state change, no node -/
+theorem html_inline_silent_quiet {st st' : IState} {o : Option Nat} {nd : Option InlineNode}
+    (h : htmlInlineRule st true = .ok (o, st', nd)) : st' = st ∧ nd = none := by
+  obtain ⟨c, rest, hw, hcase⟩ := htmlInlineRule_ok h
+  rcases hcase with ⟨_, h1, h2, _⟩ | ⟨r, _, _, _, _, hmode⟩
+  · exact ⟨h1, h2⟩
+  · rcases hmode with ⟨_, h1, h2⟩ | ⟨hs, _⟩
+    · exact ⟨h1, h2⟩
+    · cases hs
+
+/-- **C16, silent ⇒ real**: when silent mode answers `some n`, real mode — unless it panics, which
+    `inline_rule_progress_html` excludes — answers `some n` too, pushes a node, and changes nothing
+    but `link_level` -/
+theorem html_inline_silent_real {st st1 : IState} {n : Nat} {nd1 : Option InlineNode}
+    (hs : htmlInlineRule st true = .ok (some n, st1, nd1)) :
+    ∀ o st2 nd2, htmlInlineRule st false = .ok (o, st2, nd2) →
+      o = some n ∧ st2 = { st with linkLevel := st2.linkLevel } ∧ ∃ node, nd2 = some node := by
+  intro o st2 nd2 hr
+  obtain ⟨c, rest, hw, hcase⟩ := htmlInlineRule_ok hs
+  obtain ⟨c', rest', hw', hcase'⟩ := htmlInlineRule_ok hr
+  rw [hw] at hw'
+  injection hw' with hw'
+  injection hw' with e1 e2
+  subst e1 e2
+  rcases hcase with ⟨h0, _⟩ | ⟨r, hc, hq, htr, ho, _⟩
+  · cases h0
+  · rcases hcase' with ⟨_, _, _, hno⟩ | ⟨r', _, _, htr', ho', hmode⟩
+    · rcases hno with hno | hno | hno
+      · exact absurd hc hno
+      · rw [hq] at hno; cases hno
+      · rw [htr] at hno; cases hno
+    · rw [htr] at htr'
+      injection htr' with htr'
+      subst htr'
+      rcases hmode with ⟨hs', _⟩ | ⟨_, ll, rg, _, _, rfl, rfl⟩
+      · cases hs'
+      · exact ⟨by rw [ho', ho], rfl, _, rfl⟩
+
+/-- **C16, real ⇒ silent**: the two modes agree on the verdict and the extent -/
+theorem html_inline_real_silent {st st2 : IState} {o : Option Nat} {nd2 : Option InlineNode}
+    (hr : htmlInlineRule st false = .ok (o, st2, nd2)) : htmlInlineRule st true = .ok (o, st, none) := by
+  obtain ⟨c, rest, hw, hcase⟩ := htmlInlineRule_ok hr
+  unfold htmlInlineRule
+  rw [hw]
+  simp only
+  rcases hcase with ⟨rfl, _, _, hno⟩ | ⟨r, hc, hq, htr, ho, _⟩
+  · rcases hno with hno | hno | hno
+    · rw [if_pos hno]
+    · split
+      · rfl
+      · rw [hno]; rfl
+    · split
+      · rfl
+      · split
+        · rfl
+        · rw [hno]
+  · subst hc
+    rw [if_neg (by simp), hq, htr, ho]
+    simp
+
+/-- **C05, inline node**: the node pushed in real mode carries the matched source text verbatim
+    (`src[pos .. pos + n]`), its range is `get_map(pos, pos + n)`, i.e. the two ends translated by
+    `get_source_pos_for`, and start ≤ end on every monotone table -/
+theorem htmlInline_node {st st2 : IState} {n : Nat} {nd : InlineNode}
+    (hr : htmlInlineRule st false = .ok (some n, st2, some nd)) :
+    slice st.src st.pos (st.pos + n) = .ok nd.content ∧ byteLen nd.content = n ∧
+    nd.content.head? = some '<' ∧
+    getSourcePosFor st.srcmap st.pos = .ok nd.range.1 ∧
+    getSourcePosFor st.srcmap (st.pos + n) = .ok nd.range.2 ∧
+    (WFMap st.srcmap → C05.MonoMapV st.srcmap → nd.range.1 ≤ nd.range.2) := by
+  obtain ⟨c, rest, hw, hcase⟩ := htmlInlineRule_ok hr
+  rcases hcase with ⟨h0, _⟩ | ⟨r, hc, hq, htr, ho, hmode⟩
+  · cases h0
+  · rcases hmode with ⟨hs, _⟩ | ⟨_, ll, rg, _, hg, _, hnd⟩
+    · cases hs
+    · injection ho with ho
+      injection hnd with hnd
+      obtain ⟨m, hm⟩ := tagRest_spec htr
+      have hb : byteLen (c :: rest) = byteLen ('<' :: m) + byteLen r := by rw [hm, ← byteLen_append]
+      have htk : (c :: rest).take ((c :: rest).length - r.length) = '<' :: m := by
+        have : (c :: rest).length - r.length = ('<' :: m).length := by rw [hm]; simp; omega
+        rw [this, hm]; simp
+      rw [htk] at hnd
+      have hn : n = byteLen ('<' :: m) := by omega
+      obtain ⟨p, q, hsrc, hp, hlen⟩ := (C05.slice_ok_iff _ _ _ _).mp (Inline.window_eq hw)
+      have hgm : getSourcePosFor st.srcmap st.pos = .ok rg.1 ∧
+          getSourcePosFor st.srcmap (st.pos + n) = .ok rg.2 := by
+        rw [← ho] at hg
+        unfold IState.getMap InlineOps.getMap at hg
+        split at hg
+        · cases hg
+        · split at hg
+          · cases hg
+          · rename_i a ha
+            split at hg
+            · cases hg
+            · rename_i b hb'
+              simp only [Inline.liftOps, Except.ok.injEq] at hg
+              subst hg
+              exact ⟨ha, hb'⟩
+      subst hnd
+      simp only
+      refine ⟨?_, hn.symm, rfl, hgm.1, hgm.2, ?_⟩
+      · apply (C05.slice_ok_iff _ _ _ _).mpr
+        exact ⟨p, r ++ q, by rw [hsrc, hm]; simp, hp, by omega⟩
+      · intro hwf hmono
+        exact C05.translate_mono_all _ hwf hmono _ _ (by omega) _ _ hgm.1 hgm.2
+
+/-! ## the block rule -/
+
+section block
+open MdIt.Block (BState BInv TableOk LineOk EndsMono psub)
+open MdIt.Lines (LineOffset)
+
+theorem getMap_ok' {s : BState} {a b : Nat} {r : Nat × Nat} (h : s.getMap a b = .ok r) :
+    ∃ oa ob, s.offs[a]? = some oa ∧ s.offs[b]? = some ob ∧ r = (oa.firstNonspace, ob.lineEnd) := by
+  unfold BState.getMap Lines.getMap at h
+  split at h
+  · cases h
+  · split at h
+    · rename_i oa ob ha hb
+      simp only [Block.liftL, Except.ok.injEq] at h
+      exact ⟨oa, ob, ha, hb, h.symm⟩
+    · cases h
+
+/-- the roll-down loop only moves forward and stops at `line_max` at the latest -/
+theorem blockScan_bounds (s : BState) (i : Nat) : ∀ (k n m : Nat), s.lineMax - n ≤ k →
+    blockScan s i n = .ok m → n ≤ m ∧ (n ≤ s.lineMax → m ≤ s.lineMax) := by
+  intro k
+  induction k with
+  | zero =>
+    intro n m hk h
+    rw [blockScan, if_neg (by omega)] at h
+    injection h with h; subst h
+    exact ⟨Nat.le_refl _, fun h => h⟩
+  | succ k ih =>
+    intro n m hk h
+    rw [blockScan] at h
+    split at h
+    · rename_i hlt
+      split at h
+      · cases h
+      · split at h
+        · injection h with h; subst h
+          exact ⟨Nat.le_refl _, fun h => h⟩
+        · split at h
+          · cases h
+          · split at h
+            · injection h with h; subst h
+              exact ⟨by split <;> omega, fun _ => by split <;> omega⟩
+            · obtain ⟨h1, h2⟩ := ih (n + 1) m (by omega) h
+              exact ⟨by omega, fun _ => h2 (by omega)⟩
+    · injection h with h; subst h
+      exact ⟨Nat.le_refl _, fun h => h⟩
+
+/-- … and cannot fail on a table that covers `line_max` -/
+theorem blockScan_total (s : BState) (i : Nat) (hT : TableOk s) (hlen : s.lineMax ≤ s.offs.length) :
+    ∀ (k n : Nat), s.lineMax - n ≤ k → ∃ m, blockScan s i n = .ok m := by
+  intro k
+  induction k with
+  | zero =>
+    intro n hk
+    rw [blockScan, if_neg (by omega)]
+    exact ⟨_, rfl⟩
+  | succ k ih =>
+    intro n hk
+    rw [blockScan]
+    split
+    · rename_i hlt
+      obtain ⟨ind, hind⟩ := Block.lineIndent_total (s := s) (i := n) (by omega)
+      obtain ⟨t, ht⟩ := Block.getLine_total hT (i := n) (by omega)
+      rw [hind]
+      simp only
+      split
+      · exact ⟨_, rfl⟩
+      · rw [ht]
+        simp only
+        split
+        · exact ⟨_, rfl⟩
+        · exact ih (n + 1) (by omega)
+    · exact ⟨_, rfl⟩
+
+/-- the shape of every successful run of `HtmlBlockScanner::run` -/
+theorem htmlBlockRule_ok {s : BState} {silent : Bool} {b : Bool} {s' : BState} {nd : Option BlockNode}
+    (h : htmlBlockRule s silent = .ok (b, s', nd)) :
+    (b = false ∧ s' = s ∧ nd = none ∧
+      ((∃ ind, s.lineIndent s.line = .ok ind ∧ ind ≥ 4) ∨
+       (∃ lt, s.getLine s.line = .ok lt ∧ (lt.head? ≠ some '<' ∨ openSeq lt = none)))) ∨
+    (∃ ind lt i, s.lineIndent s.line = .ok ind ∧ ind < 4 ∧ s.getLine s.line = .ok lt ∧
+      lt.head? = some '<' ∧ openSeq lt = some i ∧
+      ((silent = true ∧ b = canTerminate i ∧ s' = s ∧ nd = none) ∨
+       (silent = false ∧ b = true ∧ ∃ nextLine content mp e1 r,
+          (if closeMatch i lt then .ok (s.line + 1) else blockScan s i (s.line + 1)) = .ok nextLine ∧
+          s' = { s with line := nextLine } ∧
+          s'.getLines s.line nextLine s.blkIndent true = .ok (content, mp) ∧
+          psub nextLine 1 = .ok e1 ∧ s'.getMap s.line e1 = .ok r ∧ nd = some ⟨content, r⟩))) := by
+  unfold htmlBlockRule at h
+  split at h
+  · cases h
+  · rename_i ind hind
+    split at h
+    · rename_i h4
+      simp only [Except.ok.injEq, Prod.mk.injEq] at h
+      obtain ⟨rfl, rfl, rfl⟩ := h
+      exact .inl ⟨rfl, rfl, rfl, .inl ⟨ind, hind, h4⟩⟩
+    · rename_i h4
+      split at h
+      · cases h
+      · rename_i lt hlt
+        split at h
+        · rename_i hh
+          simp only [Except.ok.injEq, Prod.mk.injEq] at h
+          obtain ⟨rfl, rfl, rfl⟩ := h
+          exact .inl ⟨rfl, rfl, rfl, .inr ⟨lt, hlt, .inl hh⟩⟩
+        · rename_i hh
+          have hh' : lt.head? = some '<' := Classical.not_not.mp hh
+          split at h
+          · rename_i ho
+            simp only [Except.ok.injEq, Prod.mk.injEq] at h
+            obtain ⟨rfl, rfl, rfl⟩ := h
+            exact .inl ⟨rfl, rfl, rfl, .inr ⟨lt, hlt, .inr ho⟩⟩
+          · rename_i i ho
+            refine .inr ⟨ind, lt, i, hind, by omega, hlt, hh', ho, ?_⟩
+            split at h
+            · rename_i hs
+              simp only [Except.ok.injEq, Prod.mk.injEq] at h
+              obtain ⟨rfl, rfl, rfl⟩ := h
+              exact .inl ⟨hs, rfl, rfl, rfl⟩
+            · rename_i hs
+              simp only at h
+              split at h
+              · cases h
+              · rename_i nextLine hscan
+                split at h
+                · cases h
+                · rename_i content mp hgl
+                  split at h
+                  · cases h
+                  · rename_i e1 he1
+                    split at h
+                    · cases h
+                    · rename_i r hr
+                      simp only [Except.ok.injEq, Prod.mk.injEq] at h
+                      obtain ⟨rfl, rfl, rfl⟩ := h
+                      exact .inr ⟨by simpa using hs, rfl, nextLine, content, mp, e1, r, hscan, rfl, hgl,
+                        he1, hr, rfl⟩
+
+/-- **C01, block rule.**  On an existing line of a state that satisfies the block invariant the rule
+    is total in both modes (no fuel is involved: the roll-down loop is bounded by `line_max`). -/
+theorem htmlBlock_no_panic {s : BState} (hI : BInv s) (hl : s.line < s.lineMax) (silent : Bool) :
+    ∃ b s' nd, htmlBlockRule s silent = .ok (b, s', nd) := by
+  have hlen := hI.lineMax
+  obtain ⟨ind, hind⟩ := Block.lineIndent_total (s := s) (i := s.line) (by omega)
+  obtain ⟨lt, hlt⟩ := Block.getLine_total hI.table (i := s.line) (by omega)
+  unfold htmlBlockRule
+  rw [hind]
+  simp only
+  split
+  · exact ⟨_, _, _, rfl⟩
+  · rw [hlt]
+    simp only
+    split
+    · exact ⟨_, _, _, rfl⟩
+    · split
+      · exact ⟨_, _, _, rfl⟩
+      · rename_i i ho
+        split
+        · exact ⟨_, _, _, rfl⟩
+        · have hscan : ∃ nl, (if closeMatch i lt then (.ok (s.line + 1) : Except Block.Panic Nat)
+              else blockScan s i (s.line + 1)) = .ok nl ∧ s.line + 1 ≤ nl ∧ nl ≤ s.lineMax := by
+            split
+            · exact ⟨_, rfl, Nat.le_refl _, by omega⟩
+            · obtain ⟨m, hm⟩ := blockScan_total s i hI.table hlen _ (s.line + 1) (Nat.le_refl _)
+              obtain ⟨h1, h2⟩ := blockScan_bounds s i _ _ _ (Nat.le_refl _) hm
+              exact ⟨m, hm, h1, h2 (by omega)⟩
+          obtain ⟨nl, hnl, h1, h2⟩ := hscan
+          rw [hnl]
+          simp only
+          obtain ⟨⟨content, mp⟩, hgl⟩ := Block.getLines_total (s := { s with line := nl }) (b := s.line)
+            (e := nl) (ind := s.blkIndent) (keep := true) hI.table (by omega) (by show nl ≤ s.offs.length; omega)
+          rw [hgl]
+          simp only
+          obtain ⟨e1, he1⟩ := Block.psub_total (a := nl) (b := 1) (by omega)
+          rw [he1]
+          simp only
+          obtain ⟨_, rfl⟩ := Block.psub_ok he1
+          obtain ⟨r, hr⟩ := Block.getMap_total (s := { s with line := nl }) (a := s.line) (b := nl - 1)
+            (by omega) (by show nl - 1 < s.offs.length; omega)
+          rw [hr]
+          exact ⟨_, _, _, rfl⟩
+
+/-- **C01, progress** (the tokenizer's `assert!(state.line > prev_line)`): a successful real run moves
+    `line` forward, not beyond `line_max`, changes nothing else, and pushes exactly one node -/
+theorem block_rule_progress_html {s s' : BState} {nd : Option BlockNode}
+    (h : htmlBlockRule s false = .ok (true, s', nd)) :
+    s.line < s'.line ∧ (s.line < s.lineMax → s'.line ≤ s.lineMax) ∧ s' = { s with line := s'.line } ∧
+      ∃ node, nd = some node := by
+  rcases htmlBlockRule_ok h with ⟨h0, _⟩ | ⟨ind, lt, i, _, _, _, _, _, hmode⟩
+  · cases h0
+  · rcases hmode with ⟨hs, _⟩ | ⟨_, _, nl, content, mp, e1, r, hscan, rfl, _, _, _, rfl⟩
+    · cases hs
+    · refine ⟨?_, ?_, rfl, _, rfl⟩
+      · split at hscan
+        · injection hscan with hscan; subst hscan; simp
+        · have := (blockScan_bounds s i _ _ _ (Nat.le_refl _) hscan).1
+          simp only; omega
+      · intro hl
+        split at hscan
+        · injection hscan with hscan; subst hscan; simp only; omega
+        · exact (blockScan_bounds s i _ _ _ (Nat.le_refl _) hscan).2 (by omega)
+
+/-- **C16, silent mode is quiet** -/
+theorem html_block_silent_quiet {s s' : BState} {b : Bool} {nd : Option BlockNode}
+    (h : htmlBlockRule s true = .ok (b, s', nd)) : s' = s ∧ nd = none := by
+  rcases htmlBlockRule_ok h with ⟨_, h1, h2, _⟩ | ⟨ind, lt, i, _, _, _, _, _, hmode⟩
+  · exact ⟨h1, h2⟩
+  · rcases hmode with ⟨_, _, h1, h2⟩ | ⟨hs, _⟩
+    · exact ⟨h1, h2⟩
+    · cases hs
+
+/-- **C16, silent ⇒ real**: a line silent mode accepts (as the terminator of a paragraph) is accepted
+    in real mode — which cannot panic under `BInv` (`htmlBlock_no_panic`) -/
+theorem html_block_silent_real {s s1 : BState} {nd1 : Option BlockNode}
+    (hs : htmlBlockRule s true = .ok (true, s1, nd1)) :
+    ∀ b s2 nd2, htmlBlockRule s false = .ok (b, s2, nd2) → b = true := by
+  intro b s2 nd2 hr
+  rcases htmlBlockRule_ok hs with ⟨h0, _⟩ | ⟨ind, lt, i, hind, h4, hlt, hh, ho, _⟩
+  · cases h0
+  · rcases htmlBlockRule_ok hr with ⟨_, _, _, hwhy⟩ | ⟨_, _, _, _, _, _, _, _, hmode⟩
+    · rcases hwhy with ⟨ind', hind', h4'⟩ | ⟨lt', hlt', hno⟩
+      · rw [hind] at hind'; injection hind' with e; subst e; omega
+      · rw [hlt] at hlt'; injection hlt' with e; subst e
+        rcases hno with hno | hno
+        · exact absurd hh hno
+        · rw [ho] at hno; cases hno
+    · rcases hmode with ⟨hs', _⟩ | ⟨_, hb, _⟩
+      · cases hs'
+      · exact hb
+
+/-- **C16, real ⇒ silent**: the silent verdict is the real one, except for the seventh sequence (a
+    complete open or close tag alone on its line), which opens a block but cannot interrupt a
+    paragraph -/
+theorem html_block_real_silent {s s2 : BState} {b : Bool} {nd2 : Option BlockNode}
+    (hr : htmlBlockRule s false = .ok (b, s2, nd2)) :
+    ∃ b1, htmlBlockRule s true = .ok (b1, s, none) ∧ (b1 = true → b = true) ∧
+      (b = true → b1 = false → ∃ lt, s.getLine s.line = .ok lt ∧ openSeq lt = some 6) := by
+  rcases htmlBlockRule_ok hr with ⟨rfl, _, _, hwhy⟩ | ⟨ind, lt, i, hind, h4, hlt, hh, ho, hmode⟩
+  · refine ⟨false, ?_, by simp, by simp⟩
+    unfold htmlBlockRule
+    rcases hwhy with ⟨ind, hind, h4⟩ | ⟨lt, hlt, hno⟩
+    · rw [hind]; simp only; rw [if_pos h4]
+    · split
+      · rename_i e he
+        unfold BState.getLine Lines.getLine at hlt
+        unfold BState.lineIndent Lines.lineIndent at he
+        split at he
+        · rename_i hnone; rw [hnone] at hlt; cases hlt
+        · cases he
+      · split
+        · rfl
+        · rw [hlt]
+          simp only
+          rcases hno with hno | hno
+          · rw [if_pos hno]
+          · split
+            · rfl
+            · rw [hno]
+  · rcases hmode with ⟨hs, _⟩ | ⟨_, rfl, _⟩
+    · cases hs
+    · refine ⟨canTerminate i, ?_, fun _ => rfl, ?_⟩
+      · unfold htmlBlockRule
+        rw [hind]; simp only
+        rw [if_neg (by omega), hlt]; simp only
+        rw [if_neg (by simp [hh]), ho]
+        simp
+      · intro _ hc
+        refine ⟨lt, hlt, ?_⟩
+        have : i = 6 := by simpa [canTerminate] using hc
+        rw [ho, this]
+
+/-- **C05, block node**: content = `get_lines(line, line', blk_indent, true)`, range =
+    `get_map(line, line' - 1)` = (`first_nonspace` of the first line, `line_end` of the last one);
+    under the invariant start ≤ end ≤ |src| -/
+theorem htmlBlock_node {s s' : BState} {node : BlockNode}
+    (h : htmlBlockRule s false = .ok (true, s', some node)) :
+    (∃ mp, s'.getLines s.line s'.line s.blkIndent true = .ok (node.content, mp)) ∧
+    (∃ o1 o2, s.offs[s.line]? = some o1 ∧ s.offs[s'.line - 1]? = some o2 ∧
+        node.range = (o1.firstNonspace, o2.lineEnd)) ∧
+    (BInv s → node.range.1 ≤ node.range.2 ∧ node.range.2 ≤ Lines.byteLen s.src) := by
+  have hprog := block_rule_progress_html h
+  rcases htmlBlockRule_ok h with ⟨h0, _⟩ | ⟨ind, lt, i, _, _, _, _, _, hmode⟩
+  · cases h0
+  · rcases hmode with ⟨hs, _⟩ | ⟨_, _, nl, content, mp, e1, r, hscan, rfl, hgl, he1, hr, hnd⟩
+    · cases hs
+    · injection hnd with hnd
+      subst hnd
+      obtain ⟨_, rfl⟩ := Block.psub_ok he1
+      obtain ⟨o1, o2, h1, h2, hrg⟩ := getMap_ok' hr
+      simp only at h1 h2 hprog ⊢
+      refine ⟨⟨mp, hgl⟩, ⟨o1, o2, h1, h2, hrg⟩, ?_⟩
+      intro hI
+      subst hrg
+      simp only
+      have hl1 := hI.table _ _ h1
+      have hl2 := hI.table _ _ h2
+      have hm := hI.mono s.line (nl - 1) o1 o2 (by omega) h1 h2
+      have ho := hl1.order
+      refine ⟨by omega, ?_⟩
+      obtain ⟨p, a, b', q, hsrc, hp, hf, he, _⟩ := hl2
+      rw [hsrc]
+      simp only [Lines.byteLen_append]
+      omega
+
+/-- the roll-down loop reads the state only through `line_max`, `line_indent` and `get_line` -/
+theorem blockScan_congr {s t : BState} (hmax : s.lineMax = t.lineMax)
+    (hi : ∀ n, s.lineIndent n = t.lineIndent n) (hg : ∀ n, s.getLine n = t.getLine n) (i : Nat) :
+    ∀ (k n : Nat), s.lineMax - n ≤ k → blockScan s i n = blockScan t i n := by
+  intro k
+  induction k with
+  | zero =>
+    intro n hk
+    unfold blockScan
+    rw [if_neg (by omega), if_neg (by omega)]
+  | succ k ih =>
+    intro n hk
+    unfold blockScan
+    rw [hi n, hg n, ← hmax]
+    split
+    · split
+      · rfl
+      · split
+        · rfl
+        · split
+          · rfl
+          · split
+            · rfl
+            · exact ih (n + 1) (by omega)
+    · rfl
+
+/-- **C10-flavoured: the rule looks at the source through the line table only.**  Two states that
+    agree on `line`, `line_max` and on the answers of `line_indent` / `get_line` (which never contain a
+    line terminator: the matchers are applied to `get_line` texts, nothing else) get the same silent
+    verdict, and in real mode the same verdict and the same consumed extent.  (The node content and
+    range are `get_lines` / `get_map` of that extent: `htmlBlock_node`.) -/
+theorem htmlBlock_line_views {s t : BState} (hline : s.line = t.line) (hmax : s.lineMax = t.lineMax)
+    (hi : ∀ n, s.lineIndent n = t.lineIndent n) (hg : ∀ n, s.getLine n = t.getLine n)
+    {silent : Bool} {b b' : Bool} {s' t' : BState} {nd nd' : Option BlockNode}
+    (hs : htmlBlockRule s silent = .ok (b, s', nd)) (ht : htmlBlockRule t silent = .ok (b', t', nd')) :
+    b = b' ∧ s'.line = t'.line := by
+  have hi0 : s.lineIndent s.line = t.lineIndent t.line := by rw [hi, hline]
+  have hg0 : s.getLine s.line = t.getLine t.line := by rw [hg, hline]
+  rcases htmlBlockRule_ok hs with ⟨rfl, rfl, _, hwhy⟩ | ⟨ind, lt, i, hind, h4, hlt, hh, ho, hmode⟩
+  · rcases htmlBlockRule_ok ht with ⟨rfl, rfl, _, _⟩ | ⟨ind', lt', i', hind', h4', hlt', hh', ho', _⟩
+    · exact ⟨rfl, hline⟩
+    · exfalso
+      rcases hwhy with ⟨ind, hind, h4⟩ | ⟨lt, hlt, hno⟩
+      · rw [hi0, hind'] at hind; injection hind with e; omega
+      · rw [hg0, hlt'] at hlt; injection hlt with e; subst e
+        rcases hno with hno | hno
+        · exact hno hh'
+        · rw [ho'] at hno; cases hno
+  · rcases htmlBlockRule_ok ht with ⟨rfl, rfl, _, hwhy⟩ | ⟨ind', lt', i', hind', h4', hlt', hh', ho', hmode'⟩
+    · exfalso
+      rcases hwhy with ⟨ind', hind', h4'⟩ | ⟨lt', hlt', hno⟩
+      · rw [hi0, hind'] at hind; injection hind with e; omega
+      · rw [hg0, hlt'] at hlt; injection hlt with e; subst e
+        rcases hno with hno | hno
+        · exact hno hh
+        · rw [ho] at hno; cases hno
+    · rw [hg0, hlt'] at hlt; injection hlt with e; subst e
+      rw [ho'] at ho; injection ho with e; subst e
+      rcases hmode with ⟨hsil, rfl, rfl, _⟩ | ⟨hsil, rfl, nl, _, _, _, _, hscan, rfl, _⟩
+      · rcases hmode' with ⟨_, rfl, rfl, _⟩ | ⟨hsil', _⟩
+        · exact ⟨rfl, hline⟩
+        · rw [hsil] at hsil'; cases hsil'
+      · rcases hmode' with ⟨hsil', _⟩ | ⟨_, rfl, nl', _, _, _, _, hscan', rfl, _⟩
+        · rw [hsil] at hsil'; cases hsil'
+        · refine ⟨rfl, ?_⟩
+          simp only
+          rw [blockScan_congr hmax hi hg i' _ _ (Nat.le_refl _), hline] at hscan
+          rw [hscan] at hscan'
+          injection hscan'
+
+end block
+
+/-! ## instances (non-vacuity, and the hypotheses are needed) -/
+
+section examples
+open MdIt.Block (BState)
+
+-- the pattern alternatives, incl. the degenerate comments
+example : tagMatch "<a href='x' b=\"y\" c=d e>rest".toList = some 24 := by decide +kernel
+example : tagMatch "</a >x".toList = some 5 := by decide +kernel
+example : tagMatch "<!---->x".toList = some 7 ∧ tagMatch "<!-->".toList = none ∧ tagMatch "<!--->".toList = none ∧
+    tagMatch "<!--a--b-->".toList = none ∧ tagMatch "<!--a-b-->".toList = some 10 := by decide +kernel
+example : tagMatch "<?php ?>x".toList = some 8 ∧ tagMatch "<!DOCTYPE html>x".toList = some 15 ∧
+    tagMatch "<![CDATA[ a ]] ]]>x".toList = some 18 := by decide +kernel
+-- backtracking is needed: U+00A0 is white space AND an unquoted-value character.  The greedy value
+-- `x y` is followed by `=`, so the engine gives the white space back and reads a second attribute
+-- `y='>'` (the crate answers 14 as well: stream `html`)
+example : tagMatch "<a b=x y='>'>z".toList = some 14 := by decide +kernel
+example : tagMatch "<a b= >".toList = some 8 := by decide +kernel
+-- `(?i)` is Unicode simple case folding: U+017F matches `s`, U+212A matches `k`
+example : openSeq "<ſcript>".toList = some 0 ∧ openSeq "<blocKquote".toList = some 5 ∧
+    closeMatch 0 "x</ſTYLE>".toList = true := by decide +kernel
+example : openSeq "<a>  ".toList = some 6 ∧ openSeq "<a> x".toList = none ∧ openSeq "<pre".toList = some 0 ∧
+    openSeq "<p".toList = some 5 ∧ openSeq "<!x".toList = none ∧ openSeq "<!X".toList = some 3 := by decide +kernel
+
+/-- `InlineState::new(src, [(0, 0)])` with `link_level` overwritten (the texts below have no outer blanks) -/
+def exI (src : String) (ll : Int) : IState := { IState.init src.toList [(0, 0)] with linkLevel := ll }
+
+def iview : IRes → Except IPanic (Option Nat × Nat × Int × Option InlineNode)
+  | .ok (o, st, nd) => .ok (o, st.pos, st.linkLevel, nd)
+  | .error e => .error e
+
+def exLink : String := "<a href='x'>t</a>"
+
+theorem exI_inv : InlineInv (exI exLink 0) := by
+  refine ⟨by decide +kernel, ⟨[], exLink.toList, rfl, by decide +kernel⟩,
+    ⟨exLink.toList, [], by decide +kernel, by decide +kernel⟩, ⟨⟨0, [], rfl⟩, by decide +kernel⟩⟩
+
+-- `inline_rule_progress_html`, `html_inline_silent_real`, `htmlInline_node`, `htmlInline_link_level`:
+-- the opening tag in both modes (`link_level` 0 ↦ 1) …
+example : iview (htmlInlineRule (exI exLink 0) true) = .ok (some 12, 0, 0, none) ∧
+    iview (htmlInlineRule (exI exLink 0) false) = .ok (some 12, 0, 1, some ⟨"<a href='x'>".toList, (0, 12)⟩) := by
+  decide +kernel
+-- … and the closing one (1 ↦ 0)
+example : iview (htmlInlineRule { exI exLink 1 with pos := 13 } false)
+    = .ok (some 4, 13, 0, some ⟨"</a>".toList, (13, 17)⟩) := by decide +kernel
+-- the hypothesis on `link_level` is needed (the crate panics in the same way in a build with overflow
+-- checks: stream `html`, counter `inl:panic-overflow`) …
+example : iview (htmlInlineRule (exI "<a>" 2147483647) false) = .error .overflow ∧
+    iview (htmlInlineRule (exI "</a>" (-2147483648)) false) = .error .overflow := by decide +kernel
+-- … but only in real mode, and only for the two link forms
+example : iview (htmlInlineRule (exI "<a>" 2147483647) true) = .ok (some 3, 0, 2147483647, none) ∧
+    iview (htmlInlineRule (exI "<b>" 2147483647) false) = .ok (some 3, 0, 2147483647, some ⟨"<b>".toList, (0, 3)⟩) := by
+  decide +kernel
+-- `InlineInv` is needed: an empty window is `chars.next().unwrap()` on `None`, a window that starts
+-- inside a character is a slice panic
+example : iview (htmlInlineRule { exI "<a>" 0 with pos := 3 } true) = .error (.rust .unwrap) ∧
+    iview (htmlInlineRule { exI "é<a>" 0 with pos := 1 } true) = .error (.rust .slice) := by decide +kernel
+
+def bview : BRes → Except Block.Panic (Bool × Nat × Option BlockNode)
+  | .ok (b, s, nd) => .ok (b, s.line, nd)
+  | .error e => .error e
+
+def exB (src : String) : BState := BState.fresh src.toList .root []
+
+example (src : String) : Block.BInv (exB src) := Block.bInv_fresh _ _ _
+
+-- `htmlBlock_no_panic`, `block_rule_progress_html`, `htmlBlock_node`: sequence 6 (`<div`) ends at the
+-- blank line, which is not consumed
+example : bview (htmlBlockRule (exB "<div>\nfoo\n\nbar") true) = .ok (true, 0, none) ∧
+    bview (htmlBlockRule (exB "<div>\nfoo\n\nbar") false) = .ok (true, 2, some ⟨"<div>\nfoo\n".toList, (0, 9)⟩) := by
+  decide +kernel
+-- a comment ends with the line that holds `-->` (consumed), CR LF line ends, unclosed: runs to the end
+example : bview (htmlBlockRule (exB "  <!-- x\r\nfoo -->z\r\nbar") false)
+      = .ok (true, 2, some ⟨"  <!-- x\nfoo -->z\n".toList, (2, 18)⟩) ∧
+    bview (htmlBlockRule (exB "<?php\nfoo") false) = .ok (true, 2, some ⟨"<?php\nfoo\n".toList, (0, 9)⟩) := by
+  decide +kernel
+-- `html_block_real_silent`: the seventh sequence opens a block but does not interrupt a paragraph
+example : bview (htmlBlockRule (exB "<a>\nfoo") true) = .ok (false, 0, none) ∧
+    bview (htmlBlockRule (exB "<a>\nfoo") false) = .ok (true, 2, some ⟨"<a>\nfoo\n".toList, (0, 7)⟩) := by
+  decide +kernel
+-- the roll-down stops in front of a line that is indented less than the block (`line_indent < 0`)
+example : bview (htmlBlockRule { exB "  <pre>\n x\ny" with blkIndent := 2 } false)
+    = .ok (true, 1, some ⟨"<pre>\n".toList, (2, 7)⟩) := by decide +kernel
+-- the hypothesis `line < line_max ≤ #lines` is needed: `line_offsets[line]` out of bounds
+example : bview (htmlBlockRule { exB "<div>" with line := 1 } true) = .error .index ∧
+    bview (htmlBlockRule { exB "<div>" with lineMax := 2 } false) = .error .index := by decide +kernel
+
+end examples
 
 end MdIt.Html
